@@ -7,5 +7,9 @@ if [ "$1" = "--remove" ]; then
   rm -rf /tmp/mw-$2; git -C /repo worktree prune; exit 0
 fi
 mkdir -p /tmp/mw-$1/out
-[ -d /tmp/mw-$1/repo ] || git -C /repo worktree add --detach /tmp/mw-$1/repo HEAD >/dev/null
+if [ ! -d /tmp/mw-$1/repo ]; then
+  git -C /repo worktree add --detach /tmp/mw-$1/repo HEAD >/dev/null
+  # keep build.rs from regenerating the parsers with parol (20+ minutes)
+  touch /tmp/mw-$1/repo/crates/parser/src/generated/* /tmp/mw-$1/repo/crates/migrator/src/generated/*
+fi
 echo /tmp/mw-$1/repo
